@@ -2234,6 +2234,24 @@ class Recipe:
         if self.locked:
             raise RuntimeError("Recipe has already been baked.")
 
+        # A bake that is refused leaves the recipe as it was, so that it can be completed and baked again
+        saved = (dict(self.results), set(self.used), dict(self.stages), self.current_stage,
+                 [(list(step.frm), list(step.to), step.frm_slice, step.to_slice, set(step.objects_used),
+                   set(step.substances_used), dict(step.trash), step.instructions) for step in self.steps])
+        try:
+            return self._bake()
+        except Exception:
+            results, used, stages, self.current_stage, steps = saved
+            for current, old in ((self.results, results), (self.used, used), (self.stages, stages)):
+                current.clear()
+                current.update(old)
+            for step, state in zip(self.steps, steps):
+                (step.frm, step.to, step.frm_slice, step.to_slice, step.objects_used, step.substances_used,
+                 step.trash, step.instructions) = state
+            raise
+
+    def _bake(self) -> dict[str, Container | Plate]:
+        """ @private """
         # Implicitly end the current stage
         if self.current_stage != 'all':
             self.end_stage(self.current_stage)
